@@ -59,6 +59,7 @@ type Exec struct {
 
 	discover *writeSet // non-nil: discovery mode (no obligations, record writes)
 	frames   map[*ssa.Function]*writeSet
+	frameParams map[*ssa.Function][]*Value
 	quiet    int
 
 	siteNames map[ssa.Instruction]string
@@ -81,6 +82,7 @@ type ownedObj struct {
 }
 
 type writeSet struct {
+	mark   int // term ids below this existed when the discovery started (loop-invariant terms)
 	all    bool
 	classes [nClasses]bool // whole heap classes forgotten
 	heap   map[string]heapKeyInfo
@@ -93,6 +95,38 @@ type heapKeyInfo struct {
 	root types.Type
 	comp int
 	sort Sort
+	wide bool    // written at objects that cannot be named outside the discovery
+	refs []*Term // otherwise: the objects written
+}
+
+// noteWrite records a heap write during write-set discovery; ref == nil means
+// "some object of that type".
+func (w *writeSet) noteWrite(k string, info heapKeyInfo, ref *Term) {
+	old, ok := w.heap[k]
+	if ok {
+		info.wide = info.wide || old.wide
+		info.refs = old.refs
+		if info.root == nil {
+			info.root = old.root
+		}
+	}
+	if ref == nil {
+		info.wide = true
+	} else if !info.wide {
+		dup := false
+		for _, r := range info.refs {
+			if r == ref {
+				dup = true
+			}
+		}
+		if !dup {
+			info.refs = append(append([]*Term(nil), info.refs...), ref)
+		}
+	}
+	if info.wide {
+		info.refs = nil
+	}
+	w.heap[k] = info
 }
 
 func newWriteSet() *writeSet {
@@ -109,7 +143,13 @@ func (w *writeSet) addAll(o *writeSet) {
 		}
 	}
 	for k, v := range o.heap {
-		w.heap[k] = v
+		if v.wide || len(v.refs) == 0 {
+			w.noteWrite(k, v, nil)
+			continue
+		}
+		for _, r := range v.refs {
+			w.noteWrite(k, v, r)
+		}
 	}
 	for k := range o.locals {
 		w.locals[k] = true
@@ -426,6 +466,7 @@ func (ex *Exec) loopContract(fr *Frame, li *loopInfo) *LoopContract {
 // loopWrites discovers what the loop body may write by a dry run.
 func (ex *Exec) loopWrites(fr *Frame, li *loopInfo, st *State) *writeSet {
 	ws := newWriteSet()
+	ws.mark = ex.tb.next
 	// locals: syntactic
 	for b := range li.blocks {
 		for _, in := range b.Instrs {
@@ -608,7 +649,26 @@ func (ex *Exec) havocWrites(st *State, ws *writeSet) {
 		sort.Strings(keys)
 		for _, k := range keys {
 			info := ws.heap[k]
-			ex.havocHeapKey(st, info.rootKey, info.comp, info.sort)
+			precise := !info.wide && len(info.refs) > 0
+			for _, r := range info.refs {
+				if r.id >= ws.mark {
+					precise = false
+				}
+			}
+			if !precise {
+				ex.havocHeapKey(st, info.rootKey, info.comp, info.sort)
+				continue
+			}
+			// only the named objects are written: everything else keeps its value
+			// (the new contents are read out of a fresh map rather than being fresh
+			// array constants: the solvers instantiate quantified invariants over
+			// select terms far more reliably than over array constants)
+			h := ex.heapMap(st, info.rootKey, info.comp, info.sort)
+			hf := ex.tb.Fresh("Hh$"+k, ex.L.liftSort(info.sort))
+			for _, r := range info.refs {
+				h = ex.tb.Store(h, r, ex.tb.Select(hf, r))
+			}
+			ex.setHeapMap(st, info.rootKey, info.comp, h)
 		}
 	}
 	var gnames []string
